@@ -19,7 +19,7 @@
 From Coq Require Import ZArith List Bool String.
 From V Require Import Base.Int Base.IO Base.Utf8 Model.Scan Model.Rfc3339 Model.Parse Model.FromStr Model.Show Model.DateTime
   Spec.Gregorian Proofs.Scan Proofs.Decimal Proofs.C09Show Proofs.C09Time Proofs.C09Date Proofs.C09DateTime Proofs.C09Zoned
-  Proofs.C09Shape Proofs.C09Holds Proofs.C09Edge Proofs.C09HoldsAll Proofs.C09 Model.C09.
+  Proofs.C09Shape Proofs.C09Holds Proofs.C09Edge Proofs.C09EdgeRead Proofs.C09HoldsAll Proofs.C09 Model.C09.
 From V Require Model.C19 Model.Parsed Model.Date Model.Time Judge.C09 Proofs.Date.
 Import ListNotations.
 Open Scope Z_scope.
@@ -277,10 +277,10 @@ Print Assumptions C09_rt_is_parse_of_show.
     three ops and all eight types -- whenever the judge has an opinion it accepts the model's output --
     except exactly the case lines of the two recorded findings ([known_finding]: op tx.rt of a
     NaiveDateTime in Display form; op tx.rt of a DateTime<FixedOffset> whose wall-clock date is outside
-    the range of NaiveDate).  On those the model gives the implementation's error
-    ([C09_finding_ndt_display] for every value; [C09_dt_wall_clock_refuted] / the third example of
-    [C09_holds_inhabited] for the second), and [C09_wall_ok_false_iff] shows that the second exclusion
-    is exactly the recorded matcher.  tx.show is NOT excluded on those values: the printed form is the
+    the range of NaiveDate).  On EVERY one of those the model gives the implementation's error and the
+    judge says bad ([C09_finding_ndt_display]: err:Invalid; [C09_finding_wall_clock]: err:OutOfRange,
+    both forms), and [C09_wall_ok_false_iff] shows that the second exclusion is exactly the recorded
+    matcher.  tx.show is NOT excluded on those values: the printed form is the
     documented one there too. *)
 Theorem C09_holds : forall op args, known_finding op args = false ->
   Judge.C09.judge op args (run op args) <> JSkip -> Judge.C09.judge op args (run op args) = JOk.
@@ -293,6 +293,26 @@ Theorem C09_finding_ndt_display : forall y o s f,
   exists why, Judge.C09.judge B"tx.rt" args (run B"tx.rt" args) = JBad why.
 Proof. exact C09_finding_ndt_display. Qed.
 Print Assumptions C09_finding_ndt_display.
+(* the second finding, universally (value level, then dispatcher level): every DateTime<FixedOffset> of the
+   domain whose wall-clock date is outside the range of NaiveDate prints, in both forms, a text that
+   DateTime::from_str refuses with OutOfRange.  Generalises the witness [C09_dt_wall_clock_refuted]. *)
+Theorem C09_wall_clock_refused : forall yu ou du su fu off, repr yu ou du -> time_dom (Time.mk_time su fu) ->
+  -86400 < off < 86400 -> off mod 60 = 0 ->
+  dn_in_range (dn_of_yo yu ou + (su + off) / 86400) = false ->
+  let a := mk_dtz (mk_ndt du (Time.mk_time su fu)) off in
+  (exists s, to_text (dtz_debug false [] a) = Val s /\ datetime_fixed_from_str s = Val (PErr Scan.OutOfRange)) /\
+  (exists s, to_text (dtz_display false [] a) = Val s /\ datetime_fixed_from_str s = Val (PErr Scan.OutOfRange)).
+Proof. exact wall_clock_refused. Qed.
+Print Assumptions C09_wall_clock_refused.
+Theorem C09_finding_wall_clock : forall y o s f off form,
+  Judge.C09.valid_date y o = true -> Judge.C09.valid_time s f = true ->
+  Judge.C09.time_in_domain s f = true -> Judge.C09.valid_offset off = true -> off mod 60 = 0 -> form_ok form ->
+  wall_ok y o s off = false ->
+  let args := [VInt 3; VInt form; VTup [VInt y; VInt o; VInt s; VInt f; VInt off]] in
+  known_finding B"tx.rt" args = true /\ run B"tx.rt" args = VErr B"OutOfRange" /\
+  exists why, Judge.C09.judge B"tx.rt" args (run B"tx.rt" args) = JBad why.
+Proof. exact C09_finding_wall_clock. Qed.
+Print Assumptions C09_finding_wall_clock.
 Theorem C09_wall_ok_false_iff : forall y o s off,
   Judge.C09.valid_date y o = true -> 0 <= s < 86400 -> -86400 < off < 86400 ->
   (wall_ok y o s off = false <->
